@@ -110,6 +110,13 @@ def gen(tier: str, seed: int):
     for i in range(n_random):
         pkg = pg.random_pkg(rng, cfg)
         packs.append((f"random{i}", pg.render(pkg), ["-nc"] if i % 2 else []))
+    # feature-rich packages (every declaration form of C01's library: generic classes next to methods with type variables
+    # of the same name in other modules, overloads, dataclasses, docstrings of every style, re-exports)
+    from . import c01
+
+    for i in range(2 if tier == "quick" else 16):
+        ks = c01.kitchen_sink(rng_for(seed, PID, "kitchen-sink", i), gated, 50 + i)
+        packs.append((f"kitchen{i}", ks, [["--docstyle", "numpydoc"], ["-nc", "--docstyle", "google"], ["-nc"], ["--docstyle", "rest", "-tsp", "docstring"]][i % 4]))
     # source directory that is not a package itself: packages at different depths in sibling sub-trees, reached through
     # plain directories (which package is "nearest" must not depend on the enumeration order)
     layout = {
@@ -133,7 +140,7 @@ def gen(tier: str, seed: int):
         for j in range(extra):
             plist.append(("hashseed", {"hashseed": str(100 + j)}))
             plist.append(("combined", {"hashseed": str(200 + j), "perturb": {"dir_seed": 300 + j, "dir_mode": "shuffle", "set_seed": 400 + j}}))
-        if tier == "quick" and name.startswith("random"):
+        if tier == "quick" and name.startswith(("random", "kitchen")):
             plist = [p for k, p in enumerate(plist) if k % 2 == (len(groups) % 2)]
         for k, (pname, kw) in enumerate(plist):
             c = Case(cid=f"c08-{name}-p{k}", files=files, opts=opts, meta={"group": name, "pert": pname}, reach=REACH)
